@@ -137,6 +137,9 @@ def run(ctx):
     ctx.count("skipped_templates", skipped)
     if sum(1 for _e, f in results if f["exit"] == 0) < 0.3 * len(results):
         raise Machinery("vacuous: only %d of %d runs completed" % (sum(1 for _e, f in results if f["exit"] == 0), len(results)))
+    if not ctx.quick:
+        from . import hooktrace as _ht
+        _ht.apply(ctx, ("update",), ("shape:",))      # the repository's own tests, recorded through the hooks
     ctx.evaluations = len(events)
     for e in events:
         ctx.nontriv(e["dbg"])
